@@ -29,6 +29,8 @@ ASSUMPTIONS = [
     'serialises (Rust Display output re-parsed by f64::from_str, compared by bit pattern, matched against the grammar)',
     'the value denoted by a number literal is whatever f64::from_str returns for it (fparse is abstract in the theorems); '
     'the run compares it with CPython float() bit for bit; literals beyond the f64 range become +-inf (accepted, i_ cases)',
+    'f64::from_str accepts every literal of the RFC 8259 number grammar (hypothesis of C13_parse_accepts_iff_pure_syntax); '
+    'exercised by the exhaustive number-like stream and every generated number',
     'strings reach the parser as valid UTF-8 (&str); chars() iteration = list of Unicode scalar values',
     'serialiser theorems are for values whose strings hold code points <= 0x10FFFF (always true of a Rust String)',
     'indent arithmetic (indent + indent_size, " ".repeat) is modelled over unbounded N: usize overflow / allocation failure '
